@@ -610,7 +610,7 @@ def c19(run):
     run.transitions += r.get("generated", 0)
     run.part("MC_Names (order laws on all triples)", MaxLen=maxlen, triples=r.get("distinct", 0))
     # (ii) the code's comparator equals that relation pairwise (G); path laws and random triples are recorded (V)
-    g = vlib.generate("MC_NamesExport", {"MaxLen": maxlen}, invariants=("Export",), workers=8)
+    g = vlib.generate("MC_NamesExport", {"MaxLen": maxlen}, invariants=("UniverseIsComplete", "Export"), workers=8)
     run.add_model(g)
     rel = next(r for r in g["records"] if r["id"][0] == "rel" and r["id"][1] == 4)
     run.sample({"id": rel["id"], "first_pairs": rel["steps"][0]["pairs"][:4]})
